@@ -206,6 +206,8 @@ def features(uni):
         feats.append("areas_cover_circular_record")
     if len(protos) > 1:
         feats.append("several_protoclusters")
+    if any(a["extent"] == b["extent"] and a["product"] != b["product"] for i, a in enumerate(protos) for b in protos[i + 1:]):
+        feats.append("protoclusters_with_the_same_extent")
     return sorted(feats)
 
 
@@ -349,6 +351,47 @@ def wrapped_and_row_universe(rng):
     return {"L": length, "circ": True, "genes": genes, "areas": areas}
 
 
+def twin_extent_universe(rng):
+    """ two protoclusters of different products with the same core and the same extent (what two rules firing on the
+        same genes with the same neighbourhood give), and a third whose extent overlaps theirs without its core touching
+        theirs: the twins then belong to two candidates of the one region (their own and the neighbouring one); on rings
+        the whole arrangement is sometimes pushed over the origin """
+    circ = rng.random() < 0.6
+    length = rng.choice([60, 100, 150])
+    unit = length // 30
+    base = rng.randrange(2 * unit, length // 3)
+    ext_end = base + rng.randrange(6 * unit, 10 * unit)
+    core_start = base + rng.randrange(1, 3 * unit)
+    core_end = core_start + rng.randrange(1, 2 * unit + 1)
+    third_start = rng.randrange(core_end + 1, ext_end)
+    third_end = third_start + rng.randrange(3 * unit, 8 * unit)
+    third_core = rng.randrange(max(third_start, core_end + 1), third_end - 1)
+    shift = 0
+    if circ and rng.random() < 0.6:
+        shift = length - rng.randrange(base + 1, third_end)
+
+    def span(start, end):
+        start, end = start + shift, end + shift
+        if not circ or end <= length:
+            return _span(start, end)
+        if start >= length:
+            return _span(start - length, end - length)
+        return _over(start, length, end - length)
+
+    core = span(core_start, core_end)
+    extent = span(base, ext_end)
+    areas = [{"kind": "proto", "core": core, "extent": extent, "product": "a"},
+             {"kind": "proto", "core": dict(core), "extent": dict(extent), "product": "b"},
+             {"kind": "proto", "core": span(third_core, third_core + 1), "extent": span(third_start, third_end), "product": "c"}]
+    areas = [a for a in areas if not (_crosses(a["core"]) and not _crosses(a["extent"]))]
+    rng.shuffle(areas)
+    shared = rng.random() < 0.5     # one gene defining both twins (a chemical hybrid) or none (interleaved)
+    gene = span(core_start, core_start + 1)
+    genes = [{"loc": dict(gene, strand=1), "core_for": ["a", "b"] if shared else []},
+             {"loc": dict(span(third_core, third_core + 1), strand=-1), "core_for": ["c"]}]
+    return {"L": length, "circ": circ, "genes": genes, "areas": areas}
+
+
 def _span(start, end):
     return {"parts": [[start, end]], "strand": 1}
 
@@ -487,6 +530,8 @@ def run(ctx):
         cases.append({"uni": random_universe(rng), "sampled": True})
     for _ in range(randoms // 10):
         cases.append({"uni": wrapped_and_row_universe(rng), "sampled": True})
+    for _ in range(randoms // 20):
+        cases.append({"uni": twin_extent_universe(rng), "sampled": True})
     for idx, case in enumerate(cases):
         case["id"] = idx
 
